@@ -140,6 +140,9 @@ func deriveExpectation(w *World, tb *TB, entry *ssa.Function, secretP, pp int, d
 func rolesArgsForValidation(args []*Term, fn string, secretP int) []*Term { return args }
 
 func runC03(c *Check, w *World) {
+	if w.Cfg.Name == CfgNative.Name {
+		ruleJSExportsDirect(c, "R03.JS", "validateHOTP")
+	}
 	tb := NewTB(w)
 	ef := NewEffects(tb)
 	iv := newIVWithTables(w, tb, ef)
